@@ -81,6 +81,10 @@ impl SearchTimer {
     /// # Returns
     /// Elapsed milliseconds or 0 if search hasn't started
     pub fn elapsed_ms(&self) -> u128 {
+        #[cfg(flounder_verif)]
+        if let Some(virtual_time) = verif::node_clock_elapsed(self.nodes_searched) {
+            return virtual_time.as_millis();
+        }
         self.start_time
             .map(|start| start.elapsed().as_millis())
             .unwrap_or(0)
@@ -89,6 +93,10 @@ impl SearchTimer {
     /// Gets the elapsed time as a Duration
     #[allow(dead_code)]
     pub fn elapsed(&self) -> Duration {
+        #[cfg(flounder_verif)]
+        if let Some(virtual_time) = verif::node_clock_elapsed(self.nodes_searched) {
+            return virtual_time;
+        }
         self.start_time
             .map(|start| start.elapsed())
             .unwrap_or(Duration::ZERO)
@@ -157,6 +165,12 @@ impl SearchTimer {
     /// Remaining duration or None if no time limit is set
     #[allow(dead_code)]
     pub fn time_remaining(&self) -> Option<Duration> {
+        #[cfg(flounder_verif)]
+        if let (Some(virtual_time), Some(limit)) =
+            (verif::node_clock_elapsed(self.nodes_searched), self.time_limit)
+        {
+            return Some(limit.saturating_sub(virtual_time));
+        }
         if let (Some(start), Some(limit)) = (self.start_time, self.time_limit) {
             let elapsed = start.elapsed();
             if elapsed < limit {
@@ -208,6 +222,13 @@ pub mod verif {
 
     pub fn on_start() {
         FIRST_STOP.with(|c| c.set(None));
+    }
+
+    /// Virtual time elapsed since the search started, if the node clock is active: every
+    /// reading of the clock (not only the deadline test) then follows the node counter
+    pub fn node_clock_elapsed(nodes: u64) -> Option<Duration> {
+        let per_ms = NODE_CLOCK.with(|c| c.get())?;
+        Some(Duration::from_millis(nodes / per_ms))
     }
 
     pub fn node_clock_should_stop(limit: Option<Duration>, nodes: u64) -> Option<bool> {
